@@ -321,6 +321,15 @@ func loadKnownFindings() *KnownFindings {
 	if err == nil {
 		json.Unmarshal(b, &kf)
 	}
+	// fragments (merged into known_findings.json before they are committed for good)
+	frags, _ := filepath.Glob(filepath.Join(verifDir, "known_findings.d", "*.json"))
+	sort.Strings(frags)
+	for _, f := range frags {
+		var k2 KnownFindings
+		if b, err := os.ReadFile(f); err == nil && json.Unmarshal(b, &k2) == nil {
+			kf.Findings = append(kf.Findings, k2.Findings...)
+		}
+	}
 	return &kf
 }
 
